@@ -784,8 +784,9 @@ def interval_log(intr, base):
         raise KaRuntimeError(f"Tried to take log with non-positive base: {base}")
     if dispatch("<=", (intr.a, 0)):
         raise KaRuntimeError(f"Tried to take log of interval containing non-positive numbers: {intr}")
-    return Interval(dispatch("log", (intr.a, base)),
-                    dispatch("log", (intr.b, base)))
+    # log is decreasing for a base below 1, so order the bounds.
+    return make_interval_from_bounds(dispatch("log", (intr.a, base)),
+                                     dispatch("log", (intr.b, base)))
 register_function(interval_ln, "ln", (Interval,))
 register_function(interval_log10, "log10", (Interval,))
 register_function(interval_log2, "log2", (Interval,))
